@@ -308,7 +308,7 @@ tre_parse_bracket_items(tre_parse_ctx_t *ctx, int negate,
 				if (endptr != ctx->re_end)
 				{
 					/* HAWK: bug fix of not checking ending ] */
-					if (*(endptr + 1) != CHAR_RBRACKET) status = REG_ECTYPE;
+					if (endptr + 1 >= ctx->re_end || *(endptr + 1) != CHAR_RBRACKET) status = REG_ECTYPE;
 					else
 					{
 					/* END HAWK */
@@ -340,7 +340,7 @@ tre_parse_bracket_items(tre_parse_ctx_t *ctx, int negate,
 			else
 			{
 				DPRINT(("tre_parse_bracket:   char: '%.*" STRF "'\n", REST(re)));
-				if (*re == CHAR_MINUS && *(re + 1) != CHAR_RBRACKET && ctx->re != re)
+				if (*re == CHAR_MINUS && (re + 1 >= ctx->re_end || *(re + 1) != CHAR_RBRACKET) && ctx->re != re)
 					/* Two ranges are not allowed to share and endpoint. */
 					status = REG_ERANGE;
 				min = max = *re++;
@@ -413,7 +413,7 @@ tre_parse_bracket(tre_parse_ctx_t *ctx, tre_ast_node_t **result)
 	items = xmalloc(ctx->mem->gem, sizeof(*items) * max_i);
 	if (items == NULL) return REG_ESPACE;
 
-	if (*ctx->re == CHAR_CARET)
+	if (ctx->re < ctx->re_end && *ctx->re == CHAR_CARET)
 	{
 		DPRINT(("tre_parse_bracket: negate: '%.*" STRF "'\n", REST(ctx->re)));
 		negate = 1;
@@ -729,7 +729,7 @@ tre_parse_bound(tre_parse_ctx_t *ctx, tre_ast_node_t **result)
 				case HAWK_T('<'):
 					DPRINT(("tre_parse:    max cost: '%.*" STRF "'\n", REST(r)));
 					r++;
-					while (*r == HAWK_T(' '))
+					while (r < ctx->re_end && *r == HAWK_T(' '))
 						r++;
 					cost_max = tre_parse_int(&r, ctx->re_end);
 					if (cost_max < 0)
@@ -749,7 +749,7 @@ tre_parse_bound(tre_parse_ctx_t *ctx, tre_ast_node_t **result)
 						const tre_char_t *sr = r;
 #endif /* TRE_DEBUG */
 						int cost = tre_parse_int(&r, ctx->re_end);
-						/* XXX - make sure r is not past end. */
+						if (r >= ctx->re_end) return REG_BADBR;
 						switch (*r)
 						{
 						case HAWK_T('i'):	/* Insert cost */
@@ -1474,7 +1474,7 @@ reg_errcode_t tre_parse(tre_parse_ctx_t *ctx)
 					break;
 				case HAWK_T('x'):
 					ctx->re++;
-					if (ctx->re < ctx->re_end && ctx->re[0] != CHAR_LBRACE)
+					if (ctx->re >= ctx->re_end || ctx->re[0] != CHAR_LBRACE)
 					{
 					/* HAWK */
 					#if 0
@@ -1674,12 +1674,11 @@ reg_errcode_t tre_parse(tre_parse_ctx_t *ctx)
 				/* We are expecting an atom.  If the subexpression (or the whole
 				 regexp) ends here, we interpret it as an empty expression
 				 (which matches an empty string).  */
-				if (
+				if (ctx->re >= ctx->re_end || (
 	#ifdef REG_LITERAL
 				    !(ctx->cflags & REG_LITERAL) &&
 	#endif /* REG_LITERAL */
-				    (ctx->re >= ctx->re_end
-				     || *ctx->re == CHAR_STAR
+				    (*ctx->re == CHAR_STAR
 				     || (ctx->cflags & REG_EXTENDED
 				         && (*ctx->re == CHAR_PIPE
 					/* HAWK */
@@ -1692,7 +1691,7 @@ reg_errcode_t tre_parse(tre_parse_ctx_t *ctx)
 				     || (!(ctx->cflags & REG_EXTENDED)
 				         && ctx->re + 1 < ctx->re_end
 				         && *ctx->re == CHAR_BACKSLASH
-				         && *(ctx->re + 1) == CHAR_LBRACE)))
+				         && *(ctx->re + 1) == CHAR_LBRACE))))
 				{
 					DPRINT(("tre_parse:	    empty: '%.*" STRF "'\n", REST(ctx->re)));
 					result = tre_ast_new_literal(ctx->mem, EMPTY, -1, -1);
